@@ -31,7 +31,11 @@ type Store struct {
 	Trace      []string
 	readerMode int
 	skew       time.Duration // added to the wall clock: lets a harness make time pass
+	pageCap    int           // when > 0: no listing page holds more keys than this, whatever the caller asks for
 }
+
+// SetPageCap makes every listing page hold at most n keys (object stores cap their pages).
+func (s *Store) SetPageCap(n int) { s.mu.Lock(); s.pageCap = n; s.mu.Unlock() }
 
 // Advance moves the store's clock forward.
 func (s *Store) Advance(d time.Duration) {
@@ -200,6 +204,9 @@ func (s *Store) KeysPrefix(_ context.Context, token, prefix, delim string, count
 	}
 	start := sort.SearchStrings(ded, token)
 	ded = ded[start:]
+	if s.pageCap > 0 && count > s.pageCap {
+		count = s.pageCap
+	}
 	if len(ded) > count {
 		return append([]string(nil), ded[:count]...), ded[count], nil
 	}
